@@ -216,9 +216,13 @@ func controllerOfCompleteRule(c *Ctx) {
 	n := 0
 	for _, fn := range p.FuncsIn(pkgObjectSets) {
 		for _, l := range loopsOf(fn) {
-			// the call in the loop that yields ([]ControlledObjectReference, ProbingResult, error)
-			var k *ssa.Call
-			for b := range l.Body {
+			// the call(s) in the loop that yield ([]ControlledObjectReference, ProbingResult, error);
+			// several when the dispatch between kinds of phases is written out in the loop body
+			var ks []*ssa.Call
+			for _, b := range fn.Blocks {
+				if !l.Body[b] {
+					continue
+				}
 				for _, in := range b.Instrs {
 					call, ok := in.(*ssa.Call)
 					if !ok {
@@ -227,68 +231,65 @@ func controllerOfCompleteRule(c *Ctx) {
 					res := call.Common().Signature().Results()
 					if res.Len() == 3 && isSliceOfNamed(res.At(0).Type(), pkgCoreV1+".ControlledObjectReference") &&
 						namedTypeString(res.At(1).Type()) == pkgControllers+".ProbingResult" {
-						k = call
+						ks = append(ks, call)
 					}
 				}
 			}
-			if k == nil {
+			if len(ks) == 0 {
 				continue
 			}
 			n++
-			var contrib ssa.Value
-			for _, r := range referrersOf(k) {
-				if e, ok := r.(*ssa.Extract); ok && e.Index == 0 {
-					contrib = e
-				}
-			}
-			// Every path from the call that leaves the iteration other than through the back edge —
-			// a return that reports a list, or a break — must first append this iteration's
-			// contribution to the accumulator.
-			isAppend := func(in ssa.Instruction) bool {
-				call, ok := in.(*ssa.Call)
-				if !ok || !isCallTo(call.Common(), "builtin:append") || len(call.Common().Args) != 2 {
-					return false
-				}
-				return contrib != nil && stripConv(call.Common().Args[1]) == contrib
-			}
-			o := c.Ob(fn, "controllerOf-complete-on-early-exit", k, c.rule.Statement)
+			o := c.Ob(fn, "controllerOf-complete-on-early-exit", ks[0], c.rule.Statement)
 			var bad []string
-			seen := map[*ssa.BasicBlock]bool{}
-			var visit func(b *ssa.BasicBlock, from int)
-			visit = func(b *ssa.BasicBlock, from int) {
-				for i := from; i < len(b.Instrs); i++ {
-					in := b.Instrs[i]
-					if isAppend(in) {
-						return // satisfied on this path
+			for _, k := range ks {
+				// Every path from the call that leaves the iteration other than through the back edge —
+				// a return that reports a list, or a break — must first append this iteration's
+				// contribution (result 0 of the call, on the paths that executed it) to the accumulator.
+				w := p.pfAfter(k)
+				isAppend := func(in ssa.Instruction) bool {
+					call, ok := in.(*ssa.Call)
+					if !ok || !isCallTo(call.Common(), "builtin:append") || len(call.Common().Args) != 2 {
+						return false
 					}
-					if r, ok := in.(*ssa.Return); ok {
-						if len(r.Results) > 0 {
-							nilList := true
-							for _, pv := range p.possibleValues(r.Results[0]) {
-								if !isNilConst(stripConv(pv)) {
-									nilList = false
+					return w.isResult(call.Common().Args[1], 0)
+				}
+				seen := map[*ssa.BasicBlock]bool{}
+				var visit func(b *ssa.BasicBlock, from int)
+				visit = func(b *ssa.BasicBlock, from int) {
+					for i := from; i < len(b.Instrs); i++ {
+						in := b.Instrs[i]
+						if isAppend(in) {
+							return // satisfied on this path
+						}
+						if r, ok := in.(*ssa.Return); ok {
+							if len(r.Results) > 0 {
+								nilList := true
+								for _, pv := range p.possibleValues(r.Results[0]) {
+									if !isNilConst(stripConv(pv)) {
+										nilList = false
+									}
+								}
+								if !nilList {
+									bad = append(bad, "return at "+p.IPos(r))
 								}
 							}
-							if !nilList {
-								bad = append(bad, "return at "+p.IPos(r))
-							}
+							return
 						}
-						return
+					}
+					for _, s := range b.Succs {
+						if s == l.Head {
+							continue // next iteration
+						}
+						// leaving the loop from inside an iteration (break / return): keep following the
+						// path; what matters is the list reported by the return it reaches
+						if !seen[s] {
+							seen[s] = true
+							visit(s, 0)
+						}
 					}
 				}
-				for _, s := range b.Succs {
-					if s == l.Head {
-						continue // next iteration
-					}
-					// leaving the loop from inside an iteration (break / return): keep following the
-					// path; what matters is the list reported by the return it reaches
-					if !seen[s] {
-						seen[s] = true
-						visit(s, 0)
-					}
-				}
+				visit(k.Block(), instrIndex(k)+1)
 			}
-			visit(k.Block(), instrIndex(k)+1)
 			if len(bad) == 0 {
 				o.OK("every early exit of an iteration passes append(acc, <this phase's controllerOf>...)")
 			} else {
